@@ -185,7 +185,7 @@ struct SIMDVector<int32_t,simd_abi::avx512> {
 
     FASTOR_INLINE int32_t minimum() {
         int32_t *vals = (int32_t*)&value;
-        int32_t quan = 0;
+        int32_t quan = vals[0];
         for (FASTOR_INDEX i=0; i<Size; ++i)
             if (vals[i]<quan)
                 quan = vals[i];
@@ -193,7 +193,7 @@ struct SIMDVector<int32_t,simd_abi::avx512> {
     }
     FASTOR_INLINE int32_t maximum() {
         int32_t *vals = (int32_t*)&value;
-        int32_t quan = 0;
+        int32_t quan = vals[0];
         for (FASTOR_INDEX i=0; i<Size; ++i)
             if (vals[i]>quan)
                 quan = vals[i];
@@ -526,7 +526,7 @@ struct SIMDVector<int32_t,simd_abi::avx> {
 
     FASTOR_INLINE int32_t minimum() {
         int32_t *vals = (int32_t*)&value;
-        int32_t quan = 0;
+        int32_t quan = vals[0];
         for (FASTOR_INDEX i=0; i<Size; ++i)
             if (vals[i]<quan)
                 quan = vals[i];
@@ -534,7 +534,7 @@ struct SIMDVector<int32_t,simd_abi::avx> {
     }
     FASTOR_INLINE int32_t maximum() {
         int32_t *vals = (int32_t*)&value;
-        int32_t quan = 0;
+        int32_t quan = vals[0];
         for (FASTOR_INDEX i=0; i<Size; ++i)
             if (vals[i]>quan)
                 quan = vals[i];
@@ -846,7 +846,7 @@ struct SIMDVector<int32_t,simd_abi::sse> {
 
     FASTOR_INLINE int32_t minimum() {
         int32_t *vals = (int32_t*)&value;
-        int32_t quan = 0;
+        int32_t quan = vals[0];
         for (FASTOR_INDEX i=0; i<Size; ++i)
             if (vals[i]<quan)
                 quan = vals[i];
@@ -854,7 +854,7 @@ struct SIMDVector<int32_t,simd_abi::sse> {
     }
     FASTOR_INLINE int32_t maximum() {
         int32_t *vals = (int32_t*)&value;
-        int32_t quan = 0;
+        int32_t quan = vals[0];
         for (FASTOR_INDEX i=0; i<Size; ++i)
             if (vals[i]>quan)
                 quan = vals[i];
